@@ -10,7 +10,8 @@ I(a, t, val, r) == [id |-> a, ty |-> t, v |-> val, refs |-> r, st |-> "C"]
 Pats(a, b) == { <<a>>, <<b>>, <<a, b>>, <<b, a>>, <<a, a>>, <<>> }
 RefShapes(a, b) == {[rt |-> "node", p |-> <<a>>], [rt |-> "node", p |-> <<b>>],
                     [rt |-> "h_sel", p |-> <<a>>], [rt |-> "h_sel", p |-> <<b>>]}
-                   \cup {[rt |-> t, p |-> q] : t \in {"h_items", "h_sels"}, q \in Pats(a, b)}
+                   \cup {[rt |-> "h2_in", p |-> <<a>>], [rt |-> "h2_in", p |-> <<b>>]}
+                   \cup {[rt |-> t, p |-> q] : t \in {"h_items", "h_sels", "h2_tl", "h2_ps"}, q \in Pats(a, b)}
                    \cup {[rt |-> "cx", p |-> q] : q \in Pats(a, b) \ {<<>>}} \cup {[rt |-> "cx", p |-> <<a>>]}
 FilesOf(ids) == LET a == ids[1] b == ids[2] c == ids[3] IN
   { IF fwd THEN <<I(c, s.rt, IF s.rt \in {"node", "cx"} THEN c ELSE 0, s.p), I(b, "node", b, n2), I(a, "leaf", a, <<>>)>>
